@@ -247,12 +247,12 @@ theorem Yields.exit_steps {code O P o fr F p1 p2 S c outs e}
 def ND (s : Stop) : Prop := match s with | .diverge => False | _ => True
 
 /-- sequential composition (pipe).  `R0`: the registers the read-only set `P` is read from. -/
-theorem Yields.bind {code} {Oa Ob O P : Nat → Prop} {o fr F pm p' S c xs ea} {f : V → Res} {R0 : Regs}
+theorem Yields.bind {code} {Oa Ob O P : Nat → Prop} {o fr F pm p' S Sa c xs ea} {f : V → Res} {R0 : Regs}
     (ha : ∀ i, Oa i → O i) (hbO : ∀ i, Ob i → O i) (hdis : ∀ i, Oa i → ¬ Ob i) (hlt : ∀ i, O i → i < o)
     (hPlt : ∀ i, P i → i < o ∧ ¬ O i)
-    (ya : Yields code Oa P o fr F pm S c xs ea)
+    (ya : Yields code Oa P o fr F pm Sa c xs ea)
     (hb : ∀ x G R o1 cp, o ≤ o1 → EqOn P R0 R → ND (f x).stop →
-      Yields code Ob P o1 fr G p' S (.run pm (.v x :: S) G false none R fr o1 cp) (f x).outs (f x).stop.toErr) :
+      Yields code Ob P o1 fr G p' S (.run pm (.v x :: Sa) G false none R fr o1 cp) (f x).outs (f x).stop.toErr) :
     ∀ sa, ea = sa.toErr → EqOn P R0 c.regs → ND (Res.bindL f xs sa).stop →
     Yields code O P o fr F p' S c (Res.bindL f xs sa).outs (Res.bindL f xs sa).stop.toErr := by
   induction ya with
